@@ -10,7 +10,7 @@ From GT Require Import Base.UTree Spec.NewickSpec Model.MultiTree Model.Nexus Mo
      Model.Newick Model.NewickNum Proofs.NewickCanon Proofs.NewickNumC Proofs.NexusWords Proofs.NexusRoundTrip Proofs.NexusRoundTripMain
      Proofs.NexusRoundTripC01 Proofs.NexusRoundTripTr Proofs.NexusRoundTripExample Proofs.NewickFirst Proofs.NexusRename
      Proofs.NexusNewickText Proofs.NexusDomain Proofs.NexusProperty Proofs.NexusTranslate Proofs.NexusPrinted
-     Proofs.NexusTranslateProperty Proofs.C13Property Proofs.C13PropertyExample Proofs.MultiTreeList Proofs.MultiTreeListMore.
+     Proofs.NexusTranslateProperty Proofs.C13Property Proofs.C13PropertyExample Proofs.MultiTreeList Proofs.MultiTreeListMore Proofs.NexusBlocks.
 Import ListNotations.
 Local Close Scope Q_scope.
 Local Open Scope string_scope.
@@ -461,3 +461,45 @@ Theorem C13_nexus_taxa_union_refuted :
     Nexus.PErr "Some tax names defined in TAXLABELS are not present in the tree".
 Proof. exact nexus_taxa_union_rejected. Qed.
 Print Assumptions C13_nexus_taxa_union_refuted.
+
+(** * Nexus files with several TREES blocks (after the fix fd2e4c0; finding C13-nexus-several-trees-blocks): the trees of
+    every block, in file order, each translated with the table in force at the end of its block *)
+Theorem C13_nexus_build_trees_app :
+  forall (np : string -> utree + string) st n1 s1 t1 n2 s2 t2,
+    length s1 = length n1 -> length t1 = length n1 ->
+    build_trees np st (n1 ++ n2) (s1 ++ s2) (t1 ++ t2) =
+    match build_trees np st n1 s1 t1 with
+    | inr e => inr e
+    | inl l1 => match build_trees np st n2 s2 t2 with
+                | inr e => inr e
+                | inl l2 => inl (l1 ++ l2)%list
+                end
+    end.
+Proof. exact build_trees_app. Qed.
+Print Assumptions C13_nexus_build_trees_app.
+
+Example C13_nexus_two_blocks_all_delivered :
+  delivered ("#NEXUS" ++ lf ++ "BEGIN TREES;" ++ lf ++ "TREE t1 = (a,b);" ++ lf ++ "END;" ++ lf ++
+             "BEGIN TREES;" ++ lf ++ "TREE t2 = (c,d);" ++ lf ++ "TREE t3 = (d,c);" ++ lf ++ "END;" ++ lf) =
+  inl [("t1", "(a,b);"); ("t2", "(c,d);"); ("t3", "(d,c);")].
+Proof. exact two_blocks_all_delivered. Qed.
+Print Assumptions C13_nexus_two_blocks_all_delivered.
+
+Example C13_nexus_empty_last_block_keeps_trees :
+  delivered "#NEXUS BEGIN TREES;TREE a=(a,b);END;BEGIN TREES;END;" = inl [("a", "(a,b);")].
+Proof. exact empty_last_block_keeps_trees. Qed.
+Print Assumptions C13_nexus_empty_last_block_keeps_trees.
+
+Example C13_nexus_tables_per_block :
+  delivered ("#NEXUS" ++ lf ++ "BEGIN TREES;" ++ lf ++ "TRANSLATE 1 a, 2 b;" ++ lf ++ "TREE t1 = (1,2);" ++ lf ++ "END;" ++ lf ++
+             "BEGIN TREES;" ++ lf ++ "TREE t2 = (2,1);" ++ lf ++ "END;" ++ lf ++
+             "BEGIN TREES;" ++ lf ++ "TRANSLATE 1 x, 2 y;" ++ lf ++ "TREE t3 = (1,2);" ++ lf ++ "END;" ++ lf) =
+  inl [("t1", "(a,b);"); ("t2", "(b,a);"); ("t3", "(x,y);")].
+Proof. exact tables_per_block. Qed.
+Print Assumptions C13_nexus_tables_per_block.
+
+Example C13_nexus_broken_tree_in_first_block_is_an_error :
+  exists e, delivered ("#NEXUS" ++ lf ++ "BEGIN TREES;" ++ lf ++ "TREE t1 = (a,b;" ++ lf ++ "END;" ++ lf ++
+                       "BEGIN TREES;" ++ lf ++ "TREE t2 = (c,d);" ++ lf ++ "END;" ++ lf) = inr e.
+Proof. exact broken_tree_in_first_block_is_an_error. Qed.
+Print Assumptions C13_nexus_broken_tree_in_first_block_is_an_error.
